@@ -1048,13 +1048,27 @@ func DependsOn(v, target ssa.Value) bool {
 // StructFieldValue returns the value stored into field `name` of the struct
 // literal that v was loaded from (v = *alloc with per-field stores), or nil.
 func StructFieldValue(v ssa.Value, name string) ssa.Value {
-	u, ok := v.(*ssa.UnOp)
-	if !ok || u.Op != token.MUL {
-		return nil
+	for {
+		if mi, ok := v.(*ssa.MakeInterface); ok {
+			v = mi.X
+			continue
+		}
+		if ct, ok := v.(*ssa.ChangeType); ok {
+			v = ct.X
+			continue
+		}
+		break
 	}
-	a, ok := u.X.(*ssa.Alloc)
+	a, ok := v.(*ssa.Alloc) // &T{...}
 	if !ok {
-		return nil
+		u, isU := v.(*ssa.UnOp)
+		if !isU || u.Op != token.MUL {
+			return nil
+		}
+		a, ok = u.X.(*ssa.Alloc)
+		if !ok {
+			return nil
+		}
 	}
 	var val ssa.Value
 	n := 0
